@@ -62,6 +62,39 @@ pub fn dump(a: &dyn Array) -> Option<Args> {
     Some(out)
 }
 
+/// Builders: params = [builder kind, then ops: 0 v = append value derived from v, 1 = append null, 2 n = n nulls,
+/// 3 = finish_cloned (result discarded, keeps building), 4 v n = append the value n times]
+fn builder_script(params: &[i64]) -> ArrayRef {
+    use arrow_array::builder::*;
+    use arrow_array::types::{Int32Type, Int8Type};
+    let kind = params[0];
+    let ops = &params[1..];
+    let s_of = |v: i64| -> String { let alpha = ["", "a", "é", "😀", "0123456789abc", "xyz"]; format!("{}{}", alpha[(v as usize) % alpha.len()], v) };
+    macro_rules! run { ($b:expr, $val:expr, $null:expr) => {{
+        let mut b = $b; let mut i = 0;
+        while i < ops.len() { match ops[i] {
+            0 => { let v = ops.get(i + 1).copied().unwrap_or(0); $val(&mut b, v); i += 2 }
+            1 => { $null(&mut b); i += 1 }
+            2 => { let n = ops.get(i + 1).copied().unwrap_or(0); for _ in 0..n { $null(&mut b) } i += 2 }
+            3 => { let _ = b.finish_cloned(); i += 1 }
+            _ => { let v = ops.get(i + 1).copied().unwrap_or(0); let n = ops.get(i + 2).copied().unwrap_or(0); for _ in 0..n { $val(&mut b, v) } i += 3 }
+        } }
+        std::sync::Arc::new(b.finish()) as ArrayRef
+    }}; }
+    match kind {
+        0 => run!(Int32Builder::new(), |b: &mut Int32Builder, v: i64| b.append_value(v as i32), |b: &mut Int32Builder| b.append_null()),
+        1 => run!(StringBuilder::new(), |b: &mut StringBuilder, v: i64| b.append_value(s_of(v)), |b: &mut StringBuilder| b.append_null()),
+        2 => run!(ListBuilder::new(Int32Builder::new()), |b: &mut ListBuilder<Int32Builder>, v: i64| { for k in 0..(v % 4) { if k == 2 { b.values().append_null() } else { b.values().append_value((v + k) as i32) } } b.append(true) }, |b: &mut ListBuilder<Int32Builder>| b.append(false)),
+        3 => run!(StringDictionaryBuilder::<Int8Type>::new(), |b: &mut StringDictionaryBuilder<Int8Type>, v: i64| { let _ = b.append(s_of(v % 7)); }, |b: &mut StringDictionaryBuilder<Int8Type>| b.append_null()),
+        4 => run!(BooleanBuilder::new(), |b: &mut BooleanBuilder, v: i64| b.append_value(v % 2 == 0), |b: &mut BooleanBuilder| b.append_null()),
+        5 => run!(StringViewBuilder::new().with_fixed_block_size(32), |b: &mut StringViewBuilder, v: i64| b.append_value(s_of(v)), |b: &mut StringViewBuilder| b.append_null()),
+        6 => run!(FixedSizeBinaryBuilder::new(3), |b: &mut FixedSizeBinaryBuilder, v: i64| { let _ = b.append_value([v as u8, 1, 2]); }, |b: &mut FixedSizeBinaryBuilder| b.append_null()),
+        7 => run!(PrimitiveDictionaryBuilder::<Int8Type, Int32Type>::new(), |b: &mut PrimitiveDictionaryBuilder<Int8Type, Int32Type>, v: i64| { let _ = b.append((v % 9) as i32); }, |b: &mut PrimitiveDictionaryBuilder<Int8Type, Int32Type>| b.append_null()),
+        8 => run!(LargeBinaryBuilder::new(), |b: &mut LargeBinaryBuilder, v: i64| b.append_value(s_of(v).as_bytes()), |b: &mut LargeBinaryBuilder| b.append_null()),
+        _ => run!(FixedSizeListBuilder::new(Int32Builder::new(), 2), |b: &mut FixedSizeListBuilder<Int32Builder>, v: i64| { b.values().append_value(v as i32); b.values().append_null(); b.append(true) }, |b: &mut FixedSizeListBuilder<Int32Builder>| { b.values().append_null(); b.values().append_null(); b.append(false) }),
+    }
+}
+
 fn decode_inputs(a: &Args, start: usize, n: usize) -> Option<Vec<ArrayRef>> {
     let rest: Args = a[start..].to_vec();
     let mut p = 0; let mut v = Vec::new();
@@ -111,6 +144,7 @@ fn run_kernel(k: usize, params: &[i64], ins: &[ArrayRef]) -> Option<Result<Array
             let conv = arrow_row::RowConverter::new(vec![arrow_row::SortField::new(x.data_type().clone())]);
             match conv { Ok(c) => c.convert_columns(&[x.clone()]).and_then(|rows| c.convert_rows(rows.iter())).map(|mut v| v.remove(0)), Err(_) => return None } }
         12 => arrow_select::zip::zip(&to_bool_array(params), &ins[0], &ins[1]),
+        13 => Ok(builder_script(params)),
         _ => return None,
     };
     Some(out)
@@ -120,7 +154,7 @@ pub fn generate(tier: &str, r: &mut Rng, emit: &mut dyn FnMut(Case)) {
     let n = if tier == "thorough" { 30000 } else { 3000 };
     for _ in 0..n {
         let ty = c09::gen_ty(r, 2);
-        let k = r.below(13);
+        let k = r.below(14);
         let nin = match k { 3 | 4 | 9 => 1 + r.below(3), 12 => 2, _ => 1 };
         let len0 = if r.chance(1, 10) { 0 } else { r.below(12) };
         let mut nodes = Vec::new();
@@ -135,6 +169,7 @@ pub fn generate(tier: &str, r: &mut Rng, emit: &mut dyn FnMut(Case)) {
             8 => vec![r.below(len0 + 2) as i64],
             9 => (0..r.below(6)).flat_map(|_| if r.chance(1, 5) { vec![-1, r.below(4) as i64, 0] } else { let i = r.below(nin); let l = nodes[i].len; let s = r.below(l + 1); vec![i as i64, s as i64, (s + r.below(l - s + 1)) as i64] }).collect(),
             10 => vec![r.below(8) as i64],
+            13 => { let mut v = vec![r.below(10) as i64]; for _ in 0..r.below(12) { match r.below(6) { 0 | 1 => v.extend([0, r.below(40) as i64]), 2 => v.push(1), 3 => v.extend([2, r.below(70) as i64]), 4 => v.push(3), _ => v.extend([4, r.below(40) as i64, r.below(70) as i64]) } } v }
             _ => vec![],
         };
         let mut args: Args = vec![g(k), gs(&params), g(nin)];
